@@ -1,5 +1,7 @@
 package __PKG__
 
+import "sync"
+
 // Body-less declarations: the symbolic executor intercepts these. For native replay the file
 // intrinsics_native.go provides bodies instead.
 
@@ -37,3 +39,17 @@ func verifEvent(kind string, a, b, c int)
 func verifNodeOutcome(a, b int) int
 func verifCtxErrSet() bool
 func verifCtxDoneChan(c chan struct{})
+func verifInterleave(on bool)
+
+// harness goroutines under lock-granular interleaving
+var verifWG sync.WaitGroup
+
+func verifGo(f func()) {
+	verifWG.Add(1)
+	go func() {
+		f()
+		verifWG.Done()
+	}()
+}
+
+func verifJoin() { verifWG.Wait() }
